@@ -9,7 +9,9 @@
 #ifndef CQV_N
 #define CQV_N 6
 #endif
-#define CQV_CAP 40
+#ifndef CQV_CAP
+#define CQV_CAP 16
+#endif
 
 /* decoder direction, reject clause: whatever carquet accepts must be a valid block by the format
  * document, and the reported size must be the size the format defines. */
